@@ -16,6 +16,8 @@ Example ex_schema_defaults_ok : schema_defaults_ok ex_schema = true.
 Proof. vm_compute. reflexivity. Qed.
 Example ex_schema_ifaces_ok : schema_ifaces_ok ex_schema = true.
 Proof. vm_compute. reflexivity. Qed.
+Example ex_schema_types_wf : schema_types_wf ex_schema = true.
+Proof. vm_compute. reflexivity. Qed.
 Example ex_schema_ok : schema_ok ex_schema = true.
 Proof. vm_compute. reflexivity. Qed.
 Example ex_fields_defined : fields_defined ex_schema [] ex_valid = true.
